@@ -30,8 +30,8 @@ def run(ctx):
     write_json(ep, edges)
     ctx.drive(drv, ["-mode", "edges", "-in", ep, "-pad", 0, "-nib", "0,1,15", "-keylen", 2], name="c06-edges", timeout=T)
     # R: simulated behaviours with batches above/below the threshold, 2-byte and 32-byte keys
-    for cfg, pad, nib, num, depth in ctx.pick([("trie/MCTrieSim", 1, "0,1,15", 15, 160)],
-                                              [("trie/MCTrieSim", 1, "0,1,15", 150, 160), ("trie/MCTrieSimThorough", 61, "0,1,2,15", 100, 260)]):
+    for cfg, pad, nib, num, depth in ctx.pick([("trie/MCTrieSim", 1, "0,1,15", 25, 160)],
+                                              [("trie/MCTrieSim", 1, "0,1,15", 300, 160), ("trie/MCTrieSimThorough", 61, "0,1,2,15", 200, 260)]):
         sim = ctx.tlc("trie/MCTrie", cfg, simulate="num=%d" % num, depth=depth, tags=("MBT",), timeout=T, workers=4, name=os.path.basename(cfg))
         if sim.timeout or sim.error:
             raise InfraError("TLC simulation failed: %s\n%s" % (sim.error, sim.stdout[-2000:]))
